@@ -6,6 +6,7 @@ From Coq Require Import List Reals Lra.
 Require Import Clarabel.Base.Ops Clarabel.Cones.Vec Clarabel.Cones.NN Clarabel.Cones.SOC
                Clarabel.Cones.Step Clarabel.Cones.SpecC15.
 Require Import Clarabel.Cones.LemmasStepNN Clarabel.Cones.LemmasStepSOC Clarabel.Cones.LemmasStepMisc.
+Require Import Clarabel.Cones.SpecShiftFloat Clarabel.Cones.LemmasShiftFloat.
 Import ListNotations.
 Open Scope R_scope.
 
@@ -55,6 +56,11 @@ Theorem C15_margin_interior_soc : stmt_margin_interior_soc.
 Proof. exact margin_interior_soc_ok. Qed.
 Theorem C15_shift_places_interior : stmt_shift_places_interior.
 Proof. exact shift_places_interior_ok. Qed.
+
+(** known finding F13: in binary64 the shift of the finite SOC vector (-1e17, 3, 4) ends at
+    (1, 3, 4), outside the cone (absorption); the theorem above is about the reals *)
+Theorem C15_shift_float_absorption_witness : stmt_shift_float_absorption_witness.
+Proof. exact shift_float_absorption_witness_ok. Qed.
 
 (** non-vacuity: the hypotheses are met by concrete non-trivial instances, and the repaired
     routine returns the true bound 1/2 on the former witness of F3 *)
